@@ -460,7 +460,7 @@ def replay_mode(ck):
 
 def main():
     ck = Check("C06", "proof")
-    ck.lean_stage(["VelaVerif.Props.C06"])
+    ck.lean_stage(["VelaVerif.Props.C06", "VelaVerif.Props.C06Build"])
     if ck.replay_arg:
         replay_mode(ck)
         sys.exit(0)
